@@ -45,6 +45,7 @@ type pCall struct {
 	start time.Time
 	execs []pExec
 	cx    *cxPlan
+	noscr int // NOSCRIPT replies the server gave to this call
 }
 
 type pWorld struct {
@@ -60,6 +61,7 @@ type pWorld struct {
 	execs         int
 	cancellers    []*simrt.Task
 	cxErrs        int // calls that ended with the error of their own context
+	loss          *cacheLoss
 }
 
 func (w *pWorld) wantCode(i int) int64 {
@@ -98,6 +100,12 @@ func (w *pWorld) onExec(e *simredis.Exec) {
 	if kind == 'e' {
 		if len(msg) >= 8 && msg[:8] == "NOSCRIPT" {
 			w.noscript++
+			if pc := w.cur[e.Cmd.Task]; pc != nil {
+				pc.noscr++
+			}
+			if w.loss.lost > 0 {
+				r.Probe("period-noscript-after-cache-loss")
+			}
 			return
 		}
 		w.note(2, "period-script-error", "the server failed the period script on %s: %s", keys[0], msg)
@@ -230,7 +238,11 @@ func (w *pWorld) checkCall(c *pCall, code int, err error) {
 			return
 		}
 		if !w.faulty {
-			if errors.Is(err, breaker.ErrServiceUnavailable) && w.noscript > 5 {
+			if c.noscr > 0 && len(c.execs) == 0 && !errors.Is(err, breaker.ErrServiceUnavailable) {
+				// the store is reachable and healthy; it told this call that it does not have the
+				// script (any more) and the call gave up instead of sending it
+				w.note(4, "period-error-store-healthy/script-cache-lost", "Take on %s failed (%v) on a healthy, reachable store without any injected fault: the server answered NOSCRIPT %d time(s) to this call and the script was never executed for it (script cache lost %d time(s) so far in this run, data kept)", c.key.full, err, c.noscr, w.loss.lost)
+			} else if errors.Is(err, breaker.ErrServiceUnavailable) && w.noscript > 5 {
 				// observed: concurrent first takes on a cold script cache each get NOSCRIPT, the
 				// redis breaker counts those replies as failures and starts rejecting
 				w.note(4, "period-error-store-healthy/breaker-open-after-noscript", "Take on %s was rejected (%v) on a healthy store without any injected fault, after %d NOSCRIPT replies to concurrent first takes were counted as failures by the redis breaker", c.key.full, err, w.noscript)
@@ -332,12 +344,13 @@ func periodRun(r *simrt.Run, tier string, faulty bool) {
 		outage = t.Chance(1, 3)
 	}
 	// (all members: calls whose context is due to end are stretched across that instant)
-	srv.Fault = cxFault(r, pol, func(task int) *cxPlan {
+	w.loss = drawCacheLoss(r, srv, faulty)
+	srv.Fault = w.loss.wrap(cxFault(r, pol, func(task int) *cxPlan {
 		if c := w.cur[task]; c != nil {
 			return c.cx
 		}
 		return nil
-	})
+	}))
 	often := cxOften(t)
 	prefix := "pl:"
 	var opts []limit.PeriodOption
@@ -356,11 +369,12 @@ func periodRun(r *simrt.Run, tier string, faulty bool) {
 		w.keys[prefix+k] = &pKey{full: prefix + k, cgrants: map[int]int{}}
 	}
 	if r.Tracing() {
-		r.Logf("period: period=%d quota=%d align=%v keys=%d tasks=%d ops=%d limiters=%d faulty=%v outage=%v offset=%v", w.period, w.quota, w.align, nKeys, nTasks, nOps, nLim, faulty, outage, offset)
+		r.Logf("period: period=%d quota=%d align=%v keys=%d tasks=%d ops=%d limiters=%d faulty=%v outage=%v offset=%v script-cache-loss=%v", w.period, w.quota, w.align, nKeys, nTasks, nOps, nLim, faulty, outage, offset, w.loss.sample())
 	}
 	if offset > 0 {
 		r.Sleep(offset)
 	}
+	lossTasks := w.loss.start()
 	deltas := []time.Duration{-time.Millisecond, -1, 0, 1, time.Millisecond}
 	var tasks []*simrt.Task
 	for i := 0; i < nTasks; i++ {
@@ -445,6 +459,10 @@ func periodRun(r *simrt.Run, tier string, faulty bool) {
 		r.JoinTimeout(time.Hour, ctl)
 		srv.SetDown(false)
 	}
+	if !r.JoinTimeout(time.Hour, lossTasks...) {
+		r.Fail("stuck", "script-cache / restart controllers did not return")
+		return
+	}
 	if w.execs > 0 {
 		r.Probe("oracle")
 		r.Probe("nontrivial")
@@ -454,6 +472,6 @@ func periodRun(r *simrt.Run, tier string, faulty bool) {
 	}
 	r.Sample(map[string]any{"component": "PeriodLimit", "faulty": faulty, "period_s": w.period, "quota": w.quota, "align": w.align, "keys": nKeys,
 		"client_tasks": nTasks, "takes_per_task": nOps, "limiter_instances": nLim, "cold_start_herd": herd, "initial_offset": offset.String(), "outage": outage, "calls_with_own_context_per_24": often,
-		"takes": w.takes, "client_grants": w.grants, "executed_takes": w.execs, "faults_fired": srv.FiredMap()})
+		"takes": w.takes, "client_grants": w.grants, "executed_takes": w.execs, "script_cache_lost": w.loss.sample(), "faults_fired": srv.FiredMap()})
 	w.flush()
 }
